@@ -370,6 +370,10 @@ class Session:
         self.pos = {c: p for p, c in enumerate(self.order)}
         # correlations given by POSITION in the source order (so that the matrix the Cholesky routine sees
         # does not depend on the random ids of this run), as exact rationals [pa, pb, num, den]
+        # a source WITHOUT uncertainty at a given position of the source order (it cannot take part in a correlation)
+        for zp in case.get("zero_pos", []):
+            if zp < len(self.order) and case["sources"][self.order[zp]]["kind"] == "single":
+                self.meas[self.order[zp]].error = 0.0
         for pa, pb, num, den in case.get("corr_pos", []):
             if pa < len(self.order) and pb < len(self.order):
                 q.set_correlation(self.meas[self.order[pa]], self.meas[self.order[pb]], num / den)
